@@ -731,6 +731,17 @@ func VerifC08_PlainGraphDegenerate() {
 	if err == nil {
 		zzverif.Reach("accepted")
 		zzverif.Assert(g != nil, "result-or-error")
+		if g != nil {
+			// the other entry points of the plain graph on what the degenerate model produced
+			_ = g.GetDOT()
+			_ = g.GetCycles()
+			_, _ = g.PathExists("user", "doc#x")
+			_, _ = g.GetNodeByLabel("doc#x")
+			if r, err := g.Reversed(); err == nil {
+				_ = r.GetDOT()
+				_, _ = r.PathExists("doc#x", "user")
+			}
+		}
 	} else {
 		zzverif.Reach("rejected")
 	}
